@@ -10,6 +10,22 @@ from . import env
 from .report import Run
 
 
+def _bounded_only(pid):
+    """development fallback: checks/bNN.py alone (no deductive part yet)"""
+    import types
+    b = importlib.import_module(f'checks.b{pid[1:]}')
+    mod = types.SimpleNamespace(LEVEL='exploration', FINISH=dict(rule=getattr(b, 'RULE', 'bounded stand-in only'), explanation='bounded stand-in only'))
+
+    def main(run):
+        env.setup()
+        b.bounded(run)
+        return mod.FINISH
+    mod.main = main
+    if hasattr(b, 'replay'):
+        mod.replay = b.replay
+    return mod
+
+
 def main(argv=None):
     ap = argparse.ArgumentParser()
     ap.add_argument('pid')
@@ -18,7 +34,12 @@ def main(argv=None):
     ap.add_argument('--only', default=None, help='comma separated engine parts to run (development)')
     a = ap.parse_args(argv)
     pid = a.pid.upper()
-    mod = importlib.import_module(f'checks.{pid.lower()}')
+    try:
+        mod = importlib.import_module(f'checks.{pid.lower()}')
+    except ModuleNotFoundError as e:
+        if e.name != f'checks.{pid.lower()}':
+            raise
+        mod = _bounded_only(pid)
     if a.replay:
         rec = json.load(open(a.replay))
         print(json.dumps({k: rec.get(k) for k in ('property', 'key', 'what', 'obligation', 'witness', 'native_outcome')}, indent=1))
